@@ -293,5 +293,14 @@ def rule_d5(repo):
     return res
 
 
+def rule_d6(repo):
+    """Definition.parse refuses a right-hand side with a type variable that the constant's type lacks; the
+    type variables are collected by a structural recursion, which must go under binders too."""
+    from ..traverse import traversal_rule
+    return traversal_rule(repo, 'C11.D6', 'the collection of type variables of a defining equation looks at every sub-term',
+                          [(ITEMS, 'get_term_tvars.<locals>.rec'), ('kernel/term.py', 'Term.get_svars.<locals>.rec'), ('kernel/term.py', 'Term.get_vars.<locals>.rec')],
+                          'a type variable (or variable) in the skipped position escapes the side condition: c :: bool, c = (!u::bool. !x::\'a. !y. x = y) is accepted')
+
+
 def rules(repo):
-    return [rule_d1(repo), rule_d2(repo), rule_d3(repo), rule_d4(repo), rule_d5(repo)]
+    return [rule_d1(repo), rule_d2(repo), rule_d3(repo), rule_d4(repo), rule_d5(repo), rule_d6(repo)]
